@@ -78,14 +78,8 @@ def showState (s : State) : String :=
 
 /-! ### `reuse`: message A decoded into a receiver, a struct copy `c` kept, message B decoded into the same receiver
 (`harness/streams/c12/reuse.go`). A pure function has no aliasing: afterwards `c = decode A` and `r = decode B`.
-One behaviour of the Go code is not pure and is mirrored here (known finding `C12/aliasing/data-metadata/…`):
-`Data.FromProto` fills the `Metadata` struct the receiver already points to, and a struct copy of a `Data` shares
-that pointer — when A and B both carry metadata, the copy ends up with B's metadata (and A's transactions). -/
-
-def Data.copyAfterReuse (a b : Data) : Data :=
-  match a.metadata, b.metadata with
-  | some _, some mb => { a with metadata := some mb }
-  | _, _ => a
+(Until /repo bf7367f `Data.FromProto` filled the `Metadata` struct the receiver already pointed to, so a struct copy of
+a `Data` ended up with B's metadata; that was mirrored here and is gone with the repair: every type is pure now.) -/
 
 def sumHeader (h : Header) : String := s!"enc={hx h.encode} hash={hx h.hash}"
 def sumSH (sh : SignedHeader) : String := s!"enc={hx sh.encode} hash={hx sh.header.hash}"
@@ -121,10 +115,8 @@ def reuseStep (o : Op) : String :=
   | "header" => reuseObs (Header.decode a) (Header.decode b) pure (some ∘ sumHeader)
   | "sh" => reuseObs (SignedHeader.decode ka a) (SignedHeader.decode kb b) pure (some ∘ sumSH)
   | "meta" => reuseObs (Metadata.decode a) (Metadata.decode b) pure (some ∘ sumMeta)
-  | "data" => reuseObs (Data.decode a) (Data.decode b) Data.copyAfterReuse (some ∘ sumData)
-  | "sd" =>
-    reuseObs (SignedData.decode ka a) (SignedData.decode kb b)
-      (fun x y => { x with data := Data.copyAfterReuse x.data y.data }) (some ∘ sumSD)
+  | "data" => reuseObs (Data.decode a) (Data.decode b) pure (some ∘ sumData)
+  | "sd" => reuseObs (SignedData.decode ka a) (SignedData.decode kb b) pure (some ∘ sumSD)
   | "state" => if path = "proto" then reuseObs (State.decode a) (State.decode b) pure sumState else "bad-op"
   | _ => "bad-op"
 
